@@ -229,7 +229,8 @@ theorem dropLocals_exec (w : World) : w.dropLocals.exec = w.exec := by
 
 /-! ### effectful helpers -/
 
-theorem branch_mt {w w' : World} {obj : Nat} {act : Action} {bl : Bool} (h : w.branch obj act bl = .ok w') :
+theorem branch_mt {w w' : World} {obj : Nat} {act : Action} {bl wt : Bool}
+    (h : w.branch obj act bl wt = .ok w') :
     w'.exec.maxThreads = w.exec.maxThreads ∧ w'.exec.path.cap = w.exec.path.cap := by
   unfold branch at h
   mt_auto0 h
@@ -242,6 +243,11 @@ theorem yieldNow_mt {w w' : World}  (h : w.yieldNow = .ok w') :
 theorem parkNow_mt {w w' : World}  (h : w.parkNow = .ok w') :
     w'.exec.maxThreads = w.exec.maxThreads ∧ w'.exec.path.cap = w.exec.path.cap := by
   unfold parkNow at h
+  mt_auto0 h
+
+theorem blockNow_mt {w w' : World}  (h : w.blockNow = .ok w') :
+    w'.exec.maxThreads = w.exec.maxThreads ∧ w'.exec.path.cap = w.exec.path.cap := by
+  unfold blockNow at h
   mt_auto0 h
 
 theorem threadDone_mt {w w' : World}  (h : w.threadDone = .ok w') :
@@ -318,7 +324,8 @@ end World
 
 macro "mt_sat1" : tactic => `(tactic|
   (mt_sat0
-   try (have := World.branch_mt ‹World.branch _ _ _ _ = Except.ok _›)
+   try (have := World.branch_mt ‹World.branch _ _ _ _ _ = Except.ok _›)
+   try (have := World.blockNow_mt ‹World.blockNow _ = Except.ok _›)
    try (have := World.yieldNow_mt ‹World.yieldNow _ = Except.ok _›)
    try (have := World.parkNow_mt ‹World.parkNow _ = Except.ok _›)
    try (have := World.threadDone_mt ‹World.threadDone _ = Except.ok _›)
